@@ -12,6 +12,16 @@ CHECKS = {
             "validate_platform_board is compared with the membership oracle on every pair of ~3900 names (all registered boards, both platforms, generated near-misses) - exhaustive over that finite domain; write_project is exercised on generated ports/library lists/sources/directory states and read back with a standard INI parser and byte comparison, including a directory snapshot that shows nothing outside the project directory changed.",
             "Trusts Python's configparser as 'a standard INI parser'; ports/libraries restricted to single-line values without surrounding whitespace.",
             "DESIGN.md 3/C13"),
+    "C19": ("exploration",
+            "Hypothesis-generated operation histories interpreted against the real host classes; invariants, atomicity snapshots and sleep accounting checked after every step",
+            "Every public method of Led/RGBLed/Servo/DCMotor is an operation with in-range, boundary and out-of-range arguments; the invariants listed in the property are evaluated after every step of every history, vars(obj) is compared before/after each failing call, and the recorder installed through the package-level sleep indirection gives exact sleep accounting and the intermediate states of fades/ramps.",
+            "NaN excluded; float correspondences compared to 1e-9 relative; fade step restricted to ints or floats >= 0.25.",
+            "DESIGN.md 3/C19"),
+    "C20": ("exploration",
+            "Hypothesis op lists against a dict reference model (Core), exact rational arithmetic with forward-error bound (map), call recorders (sleep, serial backend), provider sequences (sensors)",
+            "The Core pin simulation is driven by generated interleavings over int/str/analogue pin names and compared with a dictionary model after every step (read-your-writes on every touched pin = non-interference); Utils.map is compared with exact Fractions; sleep, sensors and SerialMonitor are compared with the behaviour the statement spells out using recorders and fake back ends.",
+            "pyserial replaced by a fake backend; analog_write arguments finite; first-sample-pressed button edge accepted either way.",
+            "DESIGN.md 3/C20"),
 }
 
 PENDING = {}
